@@ -9,6 +9,7 @@ tools/rs2lean_fn.py — regenerates Lean definitions from the SOURCE TEXT of sel
   fn:ff       /repo/yui/src/types/ff.rs + f2.rs                    -> lean/Yuiv/Gen/FFFn.lean       (Props/C14GenF.lean)
   fn:misc     /repo/yui-khovanov/src/misc.rs (+ kh/ss.rs, khi/ssi.rs)  -> lean/Yuiv/Gen/MiscFn.lean     (Props/C06Gen.lean)
   fn:snf      /repo/yui-matrix/src/dense/snf.rs                    -> lean/Yuiv/Gen/SnfFn.lean      (Props/C09Gen.lean)
+  fn:lll      /repo/yui-matrix/src/dense/lll.rs                    -> lean/Yuiv/Gen/LllFn.lean      (Props/C10Gen.lean)
 
 Additions for fn:misc / fn:snf (see the target entries in TARGETS and Yuiv/Model/RustIter.lean, RustDense.lean):
 free functions of a file (`free_fns`), closures as auxiliary definitions (captured variables become parameters),
@@ -78,7 +79,7 @@ Semantics emitted
     on fuel (`Res.err` when it runs out): the constant `loopFuel`, or — target option `fuel_param` — an explicit first
     argument `fuel` of every function that (transitively) contains a loop.
 
-Usage: rs2lean_fn.py [fn:bitseq|fn:ratio|fn:intext|fn:qint|fn:ff|fn:misc|fn:snf]... [--src FILE]... [--out FILE]   (none = all)
+Usage: rs2lean_fn.py [fn:bitseq|fn:ratio|fn:intext|fn:qint|fn:ff|fn:misc|fn:snf|fn:lll]... [--src FILE]... [--out FILE]   (none = all)
   `--src` (once per source file of the target, in its order) and `--out` need exactly one target.
 Exit status 0: every selected generated file is up to date or was rewritten; 1: for some target something in a
 REQUIRED function (or in the item structure) is outside the subset — `rs2lean_fn: cannot translate: <what>` is printed
@@ -206,6 +207,21 @@ TARGETS = {
                                   "gcdx", "row_nz", "col_nz", "select_pivot", "eliminate_row", "eliminate_col",
                                   "eliminate_at", "eliminate_step", "eliminate_all", "diag_normalize_step",
                                   "diag_normalize", "process"))),
+    "lll": dict(
+        src="/repo/yui-matrix/src/dense/lll.rs", out="LllFn.lean", ns="Yuiv.GenLll", scalar="Z", macros=True,
+        fuel_param=True, nat_usize=True, lmat=True, no_derive=True,
+        scalar_types=["i32", "i64", "i128", "BigInt"],
+        imports=["Yuiv.Model.Res", "Yuiv.Model.RustArith", "Yuiv.Model.RustRing", "Yuiv.Model.RustDense",
+                 "Yuiv.Model.RustLLL"],
+        blurb=["The methods of `LLLData`, `LLLCalc`, `LLLHNFCalc` (yui-matrix/src/dense/lll.rs) and the `LLLRing` items of",
+               "`impl_for_int!`.  `R := Int`; `Mat<R>` is `LMat` (the model's `C10.Mat` with its shape), `Vec<R>` is `Array Int`,",
+               "`usize` an unbounded `Nat`; matrix / vector primitives, the mutable column view idiom, `enumerate` and the",
+               "reversed `for` are the functions of Yuiv/Model/RustLLL.lean; `&mut self` methods return the new struct; loops run",
+               "on the fuel argument; panics are `Res.panic`.",
+               "`Yuiv/Props/C10Gen.lean` proves them equal to the hand-written model `Yuiv/Model/C10.lean`."],
+        required=_req("LLLData", ("next", "back", "nrows", "lovasz_ok", "mul_row", "nz_col_in", "add_row_to", "reduce",
+                                  "swap")) + _req("LLLCalc", ("iterate", "process")) +
+                 _req("LLLHNFCalc", ("reduce", "is_ok", "iterate", "process", "result"))),
     "intext": dict(
         src=["/repo/yui/src/misc/int_ext.rs", "/repo/yui/src/abst/euc_ring.rs"], out="IntExtFn.lean",
         ns="Yuiv.GenIntExt", scalar="Z", macros=True, fuel_param=True,
@@ -225,6 +241,7 @@ SCALAR_BOUNDS = {"EucRing", "EucRingOps", "Integer", "IntOps", "Ring", "RingOps"
                  "SubAssign", "MulAssign", "Signed", "FromPrimitive", "ToPrimitive", "AddMon", "AddGrp", "Mon", "Elem",
                  "AddMonOps", "AddGrpOps", "MonOps"}
 SCALAR_BOUNDS_FF = {"ToPrimitive"}
+SCALAR_BOUNDS_LLL = {"LLLRing", "LLLRingOps", "DivRound"}
 
 
 class Unsupported(Exception):
@@ -675,7 +692,8 @@ class Parser:
                 lhs = N("assign", op=op, l=lhs, r=rhs, line=t.line)
                 continue
             if op in ("..", "..=", "..."):
-                if op != ".." or 2 < minp: raise Unsupported(f"range expression `{op}` (line {t.line})")
+                if op != "..": raise Unsupported(f"range expression `{op}` (line {t.line})")
+                if 2 < minp: break
                 self.next()
                 hi = self.expr(3, nostruct)
                 lhs = N("range", lo=lhs, hi=hi, line=t.line)
@@ -934,6 +952,11 @@ class Parser:
                 if not self.eat(","): break
             self.expect(")")
             return N("ptuple", ps=ps)
+        if t.kind == "id" and t.val == "Some" and self.at("(", 1):
+            self.next(); self.next()
+            inner = self.pattern()
+            self.expect(")")
+            return N("psome", p=inner)
         if t.kind == "id":
             if t.val in ("mut", "ref"): raise Unsupported(f"`{t.val}` binding pattern (line {t.line})")
             segs = self.path()
@@ -1393,6 +1416,7 @@ ZMETH = {"is_zero": ("RInt.is_zero", 0, "bool"), "is_one": ("RInt.is_one", 0, "b
          "is_positive": ("RInt.is_positive", 0, "bool"), "normalizing_unit": ("RInt.normalizing_unit", 0, "Z"),
          "normalized": ("RInt.normalized", 0, "Z"), "into_normalized": ("RInt.normalized", 0, "Z"),
          "inv": ("RInt.inv", 0, "Option<Z>"), "abs": ("RInt.abs", 0, "Z"), "signum": ("RInt.signum", 0, "Z"),
+         "as_int": ("RInt.as_int", 0, "Option<Z>"), "conj": ("RInt.conj", 0, "Z"), "norm": ("RInt.norm", 0, "Z"),
          "to_i64": ("RInt.to_i64", 0, "Option<Z>"), "is_odd": ("RInt.is_odd", 0, "bool"), "is_even": ("RInt.is_even", 0, "bool")}
 # … that can panic (emitted as a bind)
 ZMETH_M = {"rem_euclid": ("RInt.rem_euclid", 1, "Z"), "div_round": ("RInt.div_round", 1, "Z")}
@@ -1405,12 +1429,14 @@ WSTATIC_M = {"gcdx": ("I32.gcdx", 2, "(W,W,W)")}
 # builtin associated functions of the scalar type Z
 ZSTATIC = {"gcd": ("RInt.gcd", 2, "Z"), "lcm": ("RInt.lcm", 2, "Z"), "zero": ("0", 0, "Z"), "one": ("1", 0, "Z"),
            "default": ("0", 0, "Z"), "neg": ("RInt.neg", 1, "Z"), "add": ("RInt.add", 2, "Z"), "sub": ("RInt.sub", 2, "Z"),
-           "mul": ("RInt.mul", 2, "Z"), "from_i32": ("RInt.from_i32", 1, "Option<Z>")}
+           "mul": ("RInt.mul", 2, "Z"), "from_i32": ("RInt.from_i32", 1, "Option<Z>"), "alpha": ("RInt.alpha", 0, "(Z,Z)"),
+           "from": ("RInt.from_lit", 1, "Z")}
 ZSTATIC_OWNERS = {"EucRing", "Ring", "Integer"}      # trait-qualified calls whose Self type is fixed by scalar arguments
 EMETH = {"is_zero": ("e.isZero", "bool"), "is_one": ("e.isOne", "bool"), "is_unit": ("e.isUnit", "bool"),
          "normalizing_unit": ("e.normUnit", "E"), "inv": ("e.inv", "Option<E>")}
 MAT_MUT = {"swap_rows": (2, False), "swap_cols": (2, False), "mul_row": (2, True), "mul_col": (2, True),
            "left_elementary": (3, True), "right_elementary": (3, True)}       # name -> (arity, needs the ring record)
+LMAT_MUT = {"swap_rows": 2, "swap_cols": 2, "mul_row": 2, "mul_col": 2, "add_row_to": 3, "add_col_to": 3}
 ORD = {"Less": "Ordering.lt", "Equal": "Ordering.eq", "Greater": "Ordering.gt"}
 
 
@@ -1467,6 +1493,8 @@ class Translator:
     def lean_ty(self, t):
         if t in ("Z", "W"): return "Int"
         if t == "E": return "α"
+        if t == "LM": return "LMat"
+        if t == "VZ": return "(Array Int)"
         mm = re.fullmatch(r"M<(\w+),(\w+)>", t)
         if mm: return f"(C09.Mat α {mm.group(1)} {mm.group(2)})"
         if self.cfg.get("eops") and t in self.mod.structs: return f"({t}S α m n)"
@@ -1494,6 +1522,10 @@ class Translator:
             return "(" + ",".join([self.norm_ty(ma.group(1), fn)] * int(ma.group(2))) + ")"
         if re.fullmatch(r"M<\w+,\w+>", t): return t
         if self.cfg.get("nat_usize") and t == "usize": return "usize"
+        if self.cfg.get("lmat"):
+            if t in ("LM", "VZ"): return t
+            if re.fullmatch(r"Mat<\w+>", t) and self.norm_ty(t[4:-1], fn) == "Z": return "LM"
+            if re.fullmatch(r"Vec<\w+>", t) and self.norm_ty(t[4:-1], fn) == "Z": return "VZ"
         if t == "Self":
             if self.mod.stcparams.get(fn.ty) and self.carg_of(fn) is None:
                 raise Unsupported(f"`Self` = {fn.ty} without a const argument")
@@ -1514,7 +1546,7 @@ class Translator:
             if len(ps) != len(args): raise Unsupported(f"type `{t}`")
             for p_, a_ in zip(ps, args): body = re.sub(r"(?<![\w])" + re.escape(p_) + r"(?![\w])", a_, body)
             return self.norm_ty(body, fn)
-        if m and m.group(1) in self.mod.structs and self.cfg.get("eops"):
+        if m and m.group(1) in self.mod.structs and (self.cfg.get("eops") or self.cfg.get("lmat")):
             return m.group(1)
         if m and m.group(1) in self.mod.structs and (self.mod.stparams.get(m.group(1)) or self.mod.stcparams.get(m.group(1))):
             raw = split_top(m.group(2))
@@ -1534,7 +1566,8 @@ class Translator:
         m = re.fullmatch(r"Option<(.*)>", t)
         if m: return f"Option<{self.norm_ty(m.group(1), fn)}>"
         if t in BADINT: raise Unsupported(f"type `{t}` (only the 64-bit unsigned integers are in the subset)")
-        if t in self.mod.structs and (self.mod.stparams.get(t) or self.mod.stcparams.get(t)) and not self.cfg.get("eops"):
+        if t in self.mod.structs and (self.mod.stparams.get(t) or self.mod.stcparams.get(t)) and \
+                not (self.cfg.get("eops") or self.cfg.get("lmat")):
             raise Unsupported(f"generic type `{t}` without arguments")
         if t in g["tvars"]: return t
         saved = self.tvars
@@ -1726,7 +1759,8 @@ class Translator:
         if self.scalar:
             for tp in f.tparams:
                 bs = [re.sub(r"<.*$", "", b) for t, b in f.bounds if t == tp and not b.startswith("'")]
-                if all(b in SCALAR_BOUNDS or (self.cfg.get("int32") and b in SCALAR_BOUNDS_FF) for b in bs):
+                if all(b in SCALAR_BOUNDS or (self.cfg.get("int32") and b in SCALAR_BOUNDS_FF) or
+                       (self.cfg.get("lmat") and b in SCALAR_BOUNDS_LLL) for b in bs):
                     scal.add(tp)
         tparams = [t for t in f.tparams if t not in scal]
         bounds = [(t, b) for t, b in f.bounds if t not in scal]
@@ -1863,6 +1897,7 @@ class Translator:
     def seq_k(self, stmts, tail, env, K, rest_ids=frozenset()):
         """CPS translation of a statement sequence that contains jumps; K = (wants value, continuation) is applied at
         its end.  `rest_ids`: identifiers used by the code the continuation stands for (scope check)"""
+        if self.cfg.get("lmat"): stmts = self.fuse_views(list(stmts))
         items = []
         for i, st in enumerate(stmts):
             if self.has_jump(st):
@@ -2118,7 +2153,28 @@ class Translator:
             return "fuel"
         return "loopFuel"
 
+    def fuse_views(self, stmts):
+        """`let mut v = PLACE.inner_mut().column_mut(j); v.swap_rows(a, b);` ↦ one statement on PLACE"""
+        out, k = [], 0
+        while k < len(stmts):
+            st = stmts[k]
+            if (st.kind == "let" and st.mut and st.init.kind == "mcall" and st.init.name == "column_mut" and
+                    len(st.init.args) == 1 and st.init.recv.kind == "mcall" and st.init.recv.name == "inner_mut" and
+                    k + 1 < len(stmts) and stmts[k + 1].kind == "expr" and stmts[k + 1].e.kind == "mcall" and
+                    stmts[k + 1].e.name == "swap_rows" and stmts[k + 1].e.recv.kind == "path" and
+                    stmts[k + 1].e.recv.segs == [st.name] and len(stmts[k + 1].e.args) == 2 and
+                    st.name not in self.idents(stmts[k + 2:])):
+                out.append(N("expr", line=st.line, e=N("colswap", place=st.init.recv.recv, j=st.init.args[0],
+                                                       a=stmts[k + 1].e.args[0], b=stmts[k + 1].e.args[1], line=st.line)))
+                k += 2
+            else:
+                out.append(st); k += 1
+        return out
+
     def tr_block(self, block, env, mode):
+        if self.cfg.get("lmat"):
+            block = N("block", stmts=self.fuse_views(list(block.stmts)), tail=block.tail,
+                      uses=getattr(block, "uses", []), fns=getattr(block, "fns", []))
         if self.has_jump(block) or mode[0] in ("mutval", "forbody"):
             saved = self.scope_outer
             self.scope_outer = set(env)
@@ -2207,9 +2263,26 @@ class Translator:
             return its
         if e.kind == "macro" and e.name in NOOP_MACROS:
             return []
-        if e.kind == "iflet" and e.el is None:
-            return self.tr_iflet_mut(e, env)
-        if e.kind == "mcall" and e.name in MAT_MUT:
+        if e.kind == "colswap":
+            root, field = self.place(e.place, env)
+            ln = env[root][0]
+            pty = env[root][1] if field is None else self.field_ty(env[root][1], field, e.line)
+            if pty != "LM": raise Unsupported(f"`column_mut` on a value of type {pty} (line {e.line})")
+            its, ts = [], []
+            for x in (e.j, e.a, e.b):
+                i2, t, ty = self.tr(x, env)
+                its += i2; ts.append(t)
+            cur = ln if field is None else f"{ln}.{field}"
+            r = self.fresh()
+            its += [("bind", r, " ".join(["LMat.col_swap_rows", cur] + ts))]
+            return its + [("let", ln, r if field is None else f"{{ {ln} with {field} := {r} }}")]
+        if e.kind == "iflet":
+            sc_ = e.s
+            while sc_.kind == "paren": sc_ = sc_.e
+            if e.el is None and sc_.kind == "mcall" and sc_.name == "as_mut" and not sc_.args:
+                return self.tr_iflet_mut(e, env)
+            return self.tr_iflet_stmt(e, env)
+        if e.kind == "mcall" and (e.name in MAT_MUT or e.name in LMAT_MUT):
             r_ = self.tr_mat_mut(e, env)
             if r_ is not None: return r_
         if e.kind == "mcall":
@@ -2232,6 +2305,18 @@ class Translator:
             return None
         ln = env[root][0]
         pty = env[root][1] if field is None else self.field_ty(env[root][1], field, e.line)
+        if pty == "LM" and e.name in LMAT_MUT:
+            if len(e.args) != LMAT_MUT[e.name]: raise Unsupported(f"`.{e.name}` with {len(e.args)} arguments (line {e.line})")
+            its, ts = [], []
+            for x in e.args:
+                i2, t, ty = self.tr(x, env)
+                its += i2; ts.append(t)
+            cur = ln if field is None else f"{ln}.{field}"
+            call = " ".join([f"LMat.{e.name}", cur] + ts)
+            if field is None:
+                return its + [("bind", ln, call)]
+            r = self.fresh()
+            return its + [("bind", r, call), ("let", ln, f"{{ {ln} with {field} := {r} }}")]
         if not re.fullmatch(r"M<\w+,\w+>", pty): return None
         arity, needs_e = MAT_MUT[e.name]
         if len(e.args) != arity: raise Unsupported(f"`.{e.name}` with {len(e.args)} arguments (line {e.line})")
@@ -2246,6 +2331,26 @@ class Translator:
         r = self.fresh()
         return its + [("bind", r, call), ("let", ln, f"{{ {ln} with {field} := {r} }}")]
 
+    def tr_iflet_stmt(self, e, env):
+        """`if let Some(x) = e { A } else { B }` in statement position (the branches may assign variables)"""
+        if self.has_jump(e): raise Unsupported(f"jump inside `if let` (line {e.line})")
+        mv = self.mutated(e, env)
+        its, s_, sty = self.tr(e.s, env)
+        if not (sty.startswith("Option<") and sty != "Option<_>"): raise Unsupported(f"`if let Some(..)` on {sty} (line {e.line})")
+        if not re.fullmatch(r"[\w.]+", s_):
+            r0 = self.fresh(); its = its + [("let", r0, s_)]; s_ = r0
+        pat = self.tup(env, mv)
+        env2 = dict(env)
+        v = self.ident(e.var)
+        env2[e.var] = (v, sty[7:-1], False)
+        th = self.tr_block(e.th, env2, ("vars", mv))
+        th = Code([("bind", v, f"Opt.unwrap {s_}")] + th.items, th.final)
+        el = self.tr_block(e.el, env, ("vars", mv)) if e.el is not None else Code([], ("pure", pat))
+        t = IfTerm(f"Option.isSome {s_}", th, el)
+        if not mv:
+            return its + [("do", None, t)]
+        return its + [("bind", pat, t)]
+
     def tr_iflet_mut(self, e, env):
         """`if let Some(x) = place.as_mut() { body }`: the body updates the content of an `Option` field in place"""
         sc = e.s
@@ -2253,7 +2358,8 @@ class Translator:
         if not (sc.kind == "mcall" and sc.name == "as_mut" and not sc.args):
             raise Unsupported(f"`if let Some(..) = …` without `else` on something other than `x.as_mut()` (line {e.line})")
         root, field = self.place(sc.recv, env)
-        if field is None: raise Unsupported(f"`as_mut()` on a variable (line {e.line})")
+        if field is None:
+            return self.tr_iflet_mut_var(e, root, env)
         ln = env[root][0]
         oty = self.field_ty(env[root][1], field, e.line)
         if not oty.startswith("Option<"): raise Unsupported(f"`as_mut()` on a field of type {oty} (line {e.line})")
@@ -2274,6 +2380,24 @@ class Translator:
             th = Code(th.items + [("bind", r, t_)], ("pure", f"{{ {ln} with {field} := some {r} }}"))
         el = Code([], ("pure", ln))
         return [("bind", ln, IfTerm(f"Option.isSome {ln}.{field}", th, el))]
+
+    def tr_iflet_mut_var(self, e, root, env):
+        """`if let Some(x) = v.as_mut() { body }` on a mutable local `v : Option<_>`"""
+        ln, oty = env[root][0], env[root][1]
+        if not oty.startswith("Option<"): raise Unsupported(f"`as_mut()` on a variable of type {oty} (line {e.line})")
+        if self.has_jump(e.th) or self.mutated(e.th, env): raise Unsupported(f"`if let … as_mut()` body (line {e.line})")
+        v = "x_" + self.ident(e.var)
+        env2 = dict(env)
+        env2[e.var] = (v, oty[7:-1], True)
+        body = self.tr_block(e.th, env2, ("vars", [e.var]))
+        items = [("bind", v, f"Opt.unwrap {ln}")] + body.items
+        k_, t_ = body.final
+        if k_ == "pure":
+            th = Code(items, ("pure", f"(some {t_})"))
+        else:
+            r = self.fresh()
+            th = Code(items + [("bind", r, t_)], ("pure", f"(some {r})"))
+        return [("bind", ln, IfTerm(f"Option.isSome {ln}", th, Code([], ("pure", ln))))]
 
     def desugar_mut_builtin(self, e, env, dry=False):
         """`place.add_assign(x)` … on a scalar place, `place.set_zero()` / `set_one()`: as assignments"""
@@ -2374,6 +2498,8 @@ class Translator:
                     raise Unsupported(f"tuple assignment of {ty} (line {e.line})")
                 its += i2; comps.append((t, env[self.place(l, env)[0]][1]))
             return its + self.bind_components(pats, comps, env, e.line)
+        if lhs.kind == "index":
+            return self.tr_index_assign(e, lhs, env)
         root, field = self.place(e.l, env)
         ln, rty, _ = env[root]
         if field is not None:
@@ -2404,9 +2530,50 @@ class Translator:
             items.append(("let", ln, f"{{ {ln} with {field} := {unpar(term)} }}"))
         return items
 
+    def tr_index_assign(self, e, lhs, env):
+        """`place[(i, j)] op= v` / `place[i] op= v` on a matrix / vector place"""
+        root, field = self.place(lhs.e, env)
+        ln = env[root][0]
+        pty = env[root][1] if field is None else self.field_ty(env[root][1], field, e.line)
+        cur = ln if field is None else f"{ln}.{field}"
+        ix = lhs.ix
+        while ix.kind == "paren": ix = ix.e
+        # Rust evaluates the right-hand side first, then the index expressions
+        its, v, tv = self.tr(e.r, env)
+        if pty == "LM" and ix.kind == "tuple" and len(ix.es) == 2:
+            i2, a, ta = self.tr(ix.es[0], env)
+            i3, b, tb = self.tr(ix.es[1], env)
+            if ta not in INT64 or tb not in INT64: raise Unsupported(f"matrix index (line {e.line})")
+            its += i2 + i3
+            idx, getf, setf = f"{a} {b}", "LMat.get", "LMat.set"
+        elif pty == "VZ":
+            i2, a, ta = self.tr(ix, env)
+            if ta not in INT64: raise Unsupported(f"vector index (line {e.line})")
+            its += i2
+            idx, getf, setf = a, "LVec.get", "LVec.set"
+        else:
+            raise Unsupported(f"assignment to an indexed place of type {pty} (line {e.line})")
+        if e.op != "=":
+            old = self.fresh()
+            its = its + [("bind", old, f"{getf} {cur} {idx}")]
+            i4, v, tv = self.binop(e.op[:-1], old, "Z", v, tv, e.line)
+            its += i4
+        if tv != "Z" and not (tv == "int" and re.fullmatch(r"\d+", v)): raise Unsupported(f"assignment of {tv} to an entry (line {e.line})")
+        r = self.fresh()
+        its = its + [("bind", r, f"{setf} {cur} {idx} {v}")]
+        if field is None:
+            return its + [("let", ln, r)]
+        return its + [("let", ln, f"{{ {ln} with {field} := {r} }}")]
+
     def field_ty(self, sty, field, line):
         if sty not in self.mod.structs: raise Unsupported(f"field `.{field}` of a value of type {sty} (line {line})")
         for f, t in self.mod.structs[sty]:
+            if f == field and self.cfg.get("lmat"):
+                if re.fullmatch(r"Mat<\w+>", t): return "LM"
+                if re.fullmatch(r"Option<Mat<\w+>>", t): return "Option<LM>"
+                if re.fullmatch(r"Vec<\w+>", t): return "VZ"
+                if t in self.mod.aliases and not self.mod.aliases[t][0]: t = self.mod.aliases[t][1]
+                if re.fullmatch(r"(\w+)<\w+>", t) and re.sub(r"<.*", "", t) in self.mod.structs: return re.sub(r"<.*", "", t)
             if f == field and (sty, field) in self.cfg.get("field_dims", {}):
                 r_, c_ = self.cfg["field_dims"][(sty, field)]
                 mt = f"M<{r_},{c_}>"
@@ -2463,6 +2630,8 @@ class Translator:
         """`for k in lo..hi { body }` through `Loop.forRange`; the body is an auxiliary definition returning `Ctl`"""
         it = e.it
         while it.kind == "paren": it = it.e
+        if it.kind == "mcall" and it.name == "rev" and not it.args:
+            return self.tr_for_rev(e, it.recv, env, K)
         if it.kind != "range": raise Unsupported(f"`continue`/`break` inside a `for` loop over a non-range (line {e.line})")
         i1, lo, tlo = self.tr(it.lo, env)
         i2, hi, thi = self.tr(it.hi, env)
@@ -2511,10 +2680,46 @@ class Translator:
         outer = Code([], ("m", " ".join([lc[0]] + [env[x][0] for x in lc[1] + lc[2]])))
         return Code(items, ("m", IfTerm(fin, rest, outer)))
 
+    def tr_for_rev(self, e, rng, env, K):
+        """`for i in (lo..hi).rev() { body }` (no jumps) through `Loop.forRangeRev`"""
+        while rng.kind == "paren": rng = rng.e
+        if rng.kind != "range" or self.has_jump(e.body): raise Unsupported(f"reversed `for` of this form (line {e.line})")
+        i1, lo, tlo = self.tr(rng.lo, env)
+        i2, hi, thi = self.tr(rng.hi, env)
+        st = [x for x in self.mutated(e.body, env) if x != e.var]
+        used = self.used(e.body, env)
+        ro = [n_ for n_ in env if n_ in used and n_ not in st and n_ != e.var]
+        self.nloop += 1
+        fname = f"{self.lean_fn(self.cur)}_rfor{self.nloop}"
+        env2 = dict(env)
+        lv = "x_" if e.var == "_" else self.ident(e.var)
+        if e.var != "_": env2[e.var] = (lv, "usize", False)
+        saved_fuel = self.uses_fuel
+        self.uses_fuel = False
+        body = self.tr_block(e.body, env2, ("vars", st))
+        fuel_here = self.uses_fuel
+        self.uses_fuel = saved_fuel or fuel_here
+        sty = ("(" + " × ".join(self.lean_ty(env[x][1]) for x in st) + ")") if len(st) > 1 else \
+            (self.lean_ty(env[st[0]][1]) if st else "Unit")
+        pat = self.tup(env, st)
+        csig = " ".join(([self.gsig] if self.gsig else []) + (["(fuel : Nat)"] if fuel_here else []) +
+                        [f"({env[x][0]} : {unpar(self.lean_ty(env[x][1]))})" for x in ro] +
+                        [f"({lv} : Nat)", f"(st_ : {unpar(sty)})"])
+        body = Code(([("let", pat, "st_")] if st else []) + body.items, body.final)
+        lines = [f"/-- body of the reversed `for` loop #{self.nloop} of `{self.cur.rust_name}` (state: {', '.join(st) or 'none'}) -/",
+                 f"def {fname} {csig} : Res {sty} :="]
+        lines += self.body_lines(body, "  ", True)
+        self.aux.append("\n".join(lines) + "\n")
+        fcall = "(" + " ".join([fname] + self.gargs + (["fuel"] if fuel_here else []) + [env[x][0] for x in ro]) + ")"
+        items = i1 + i2 + [("bind", pat if st else "_", f"Loop.forRangeRev {lo} {hi} {fcall} {pat if st else '()'}")]
+        if K is None: return items
+        rest = K[1]([], None, "()", env)
+        return Code(items + rest.items, rest.final)
+
     def tr_for(self, e, env):
         it0 = e.it
         while it0.kind == "paren": it0 = it0.e
-        if it0.kind == "range":
+        if it0.kind == "range" or (it0.kind == "mcall" and it0.name == "rev" and not it0.args):
             return self.tr_for_range(e, env)
         if self.has_jump(e): raise Unsupported(f"`return`/`continue`/`break` inside a `for` loop (line {e.line})")
         its, it, ity = self.tr(e.it, env)
@@ -2544,6 +2749,14 @@ class Translator:
 
     def tr_mut_call(self, e, callee, env):
         root, field = self.place(e.recv, env)
+        if field is not None and self.field_ty(env[root][1], field, e.line) in self.types:
+            info = self.translate_callee(callee)
+            if info.get("mutval"): raise Unsupported(f"`&mut self` call with a value on a field (line {e.line})")
+            its, args = self.tr_args(e.args, callee, env, e.line)
+            ln = env[root][0]
+            call = " ".join([self.lean_fn(callee)] + self.fuel_arg(info) + [f"{ln}.{field}"] + args)
+            r = self.fresh()
+            return its + [("let" if info["pure"] else "bind", r, call), ("let", ln, f"{{ {ln} with {field} := {r} }}")]
         okey = (callee.ty, callee.name)
         if okey in self.cfg.get("opaque_methods", {}) and field is None and not e.args:
             nm = self.cfg["opaque_methods"][okey]
@@ -2585,7 +2798,7 @@ class Translator:
             if not isinstance(n, N): return
             if n.kind == "block":
                 loc = set(local)
-                for s in n.stmts:
+                for s in (self.fuse_views(list(n.stmts)) if self.cfg.get("lmat") else n.stmts):
                     if s.kind == "let":
                         go(s.init, loc)
                         loc.update([s.name] if getattr(s, "pat", None) is None else [x for x, _ in s.pat])
@@ -2599,6 +2812,7 @@ class Translator:
             if n.kind == "assign":
                 l = n.l
                 while l.kind == "paren": l = l.e
+                while l.kind == "index": l = l.e
                 for x in (l.es if l.kind == "tuple" else [l]):
                     try:
                         root, _ = self.place(x, {k: (k, None, True) for k in list(env) + list(local)})
@@ -2607,6 +2821,23 @@ class Translator:
                     if root is not None and root not in local and root in env: found.add(root)
                 go(n.r, local)
                 return
+            if (n.kind == "mcall" and (n.name in MAT_MUT or n.name in LMAT_MUT)) or \
+                    (n.kind == "iflet" and n.s.kind == "mcall" and n.s.name == "as_mut"):
+                tgt_ = n.recv if n.kind == "mcall" else n.s.recv
+                try:
+                    root, _ = self.place(tgt_, {k: (k, None, True) for k in list(env) + list(local)})
+                except Unsupported:
+                    root = None
+                if root is not None and root not in local and root in env and env[root][2]:
+                    ty_ = env[root][1]
+                    if n.kind == "iflet" or ty_ in ("LM",) or re.fullmatch(r"M<\w+,\w+>", ty_ or "") or ty_ in self.mod.structs:
+                        found.add(root)
+            if n.kind == "colswap":
+                try:
+                    root, _ = self.place(n.place, {k: (k, None, True) for k in list(env) + list(local)})
+                except Unsupported:
+                    root = None
+                if root is not None and root not in local and root in env: found.add(root)
             if n.kind == "mcall" and (n.name in ASSIGN_METHODS or n.name in ("set_zero", "set_one")):
                 try:
                     root, _ = self.place(n.recv, {k: (k, None, True) for k in list(env) + list(local)})
@@ -2619,6 +2850,15 @@ class Translator:
                 if r.kind == "path" and len(r.segs) == 1 and r.segs[0] in env and r.segs[0] not in local:
                     c = self.find_fn(env[r.segs[0]][1], n.name)
                     if c is not None and c.selfk == "mut": found.add(r.segs[0])
+                if r.kind == "field" and r.e.kind == "path" and len(r.e.segs) == 1 and r.e.segs[0] in env and \
+                        r.e.segs[0] not in local and env[r.e.segs[0]][1] in self.mod.structs:
+                    try:
+                        fty_ = self.field_ty(env[r.e.segs[0]][1], r.name, 0)
+                    except Unsupported:
+                        fty_ = None
+                    if fty_ in self.types:
+                        c = self.find_fn(fty_, n.name)
+                        if c is not None and c.selfk == "mut": found.add(r.e.segs[0])
             for v in n.__dict__.values(): go(v, local)
 
         go(node, set())
@@ -2765,6 +3005,17 @@ class Translator:
                 if ta not in INT64 or tb not in INT64: raise Unsupported(f"matrix index of type ({ta}, {tb}) (line {line})")
                 r = self.fresh()
                 return its + i2 + i3 + [("bind", r, f"Dense.get {t} {a} {b}")], r, "E"
+            if ty == "LM" and ix.kind == "tuple" and len(ix.es) == 2:
+                i2, a, ta = self.tr(ix.es[0], env)
+                i3, b, tb = self.tr(ix.es[1], env)
+                if ta not in INT64 or tb not in INT64: raise Unsupported(f"matrix index of type ({ta}, {tb}) (line {line})")
+                r = self.fresh()
+                return its + i2 + i3 + [("bind", r, f"LMat.get {t} {a} {b}")], r, "Z"
+            if ty == "VZ":
+                i2, a, ta = self.tr(ix, env)
+                if ta not in INT64: raise Unsupported(f"vector index of type {ta} (line {line})")
+                r = self.fresh()
+                return its + i2 + [("bind", r, f"LVec.get {t} {a}")], r, "Z"
             if ty.startswith("(") and ix.kind == "int":
                 comps = split_top(ty[1:-1])
                 if ix.v < len(comps): return its, self.tuple_proj(t, ix.v, len(comps)), comps[ix.v]
@@ -2897,6 +3148,8 @@ class Translator:
             if op == "==": return [], f"(e.beq {a} {b})", "bool"
             if op == "!=": return [], f"(!(e.beq {a} {b}))", "bool"
             raise Unsupported(f"`{op}` on ring elements (line {line})")
+        if self.cfg.get("nat_usize") and ta in INT64 and tb in INT64 and op == "/" and re.fullmatch(r"[1-9]\d*", b):
+            return [], f"({a} / {b})", self.join_int(ta, tb, op, line)
         if self.cfg.get("nat_usize") and ta in INT64 and tb in INT64 and op in ("+", "*", "-"):
             ty = self.join_int(ta, tb, op, line)
             if op == "-":
@@ -3058,6 +3311,16 @@ class Translator:
                 c, b = self.pat_cond(q, t, line)
                 conds += c; binds.update(b)
             return conds, binds
+        if p.kind == "psome" or (p.kind == "ppath" and p.segs == ["None"]):
+            if tree[0] != "leaf" or not (tree[2].startswith("Option<") and tree[2] != "Option<_>"):
+                raise Unsupported(f"`Some`/`None` pattern on {self.tree_ty(tree)} (line {line})")
+            s_, inner = tree[1], tree[2][7:-1]
+            if p.kind == "ppath": return [f"Option.isNone {s_} = true"], {}
+            q = p.p
+            if q.kind == "pwild": return [f"Option.isSome {s_} = true"], {}
+            if q.kind == "ppath" and len(q.segs) == 1 and q.segs[0][0].islower() and inner in INT64:
+                return [f"Option.isSome {s_} = true"], {q.segs[0]: (f"(Option.getD {s_} 0)", inner)}
+            raise Unsupported(f"pattern inside `Some(..)` (line {line})")
         if p.kind == "ppath" and len(p.segs) == 1 and self.variant_of(p.segs, self.tree_ty(tree)) is None \
                 and p.segs[0][0].islower():
             return [], {p.segs[0]: (self.tree_term(tree), self.tree_ty(tree))}      # binding pattern
@@ -3076,6 +3339,7 @@ class Translator:
 
     def domain(self, ty):
         if ty == "bool": return ["true", "false"]
+        if ty.startswith("Option<"): return ["some", "none"]
         if ty == "Ordering": return list(ORD.values())
         if ty in self.mod.enums: return [f"{ty}.{v}" for v, _ in self.mod.enums[ty]]
         if ty.startswith("(") and ty != "()":
@@ -3091,6 +3355,8 @@ class Translator:
         if p.kind == "ptuple":
             return all(self.pat_matches(q, v, t) for q, v, t in zip(p.ps, val, split_top(ty[1:-1])))
         if p.kind == "pbool": return val == ("true" if p.v else "false")
+        if p.kind == "psome": return val == "some"
+        if p.kind == "ppath" and p.segs == ["None"]: return val == "none"
         if p.kind == "ppath":
             v = self.variant_of(p.segs, ty)
             return True if v is None else v == val
@@ -3342,6 +3608,19 @@ class Translator:
                 if ta not in INT64: raise Unsupported(f"`.{name}` with an argument of type {ta} (line {line})")
                 r = self.fresh()
                 return i1 + i2 + [("bind", r, f"Dense.{name} {recv} {a}")], r, "List<E>"
+        if rty == "LM":
+            if not e.args:
+                if name == "nrows": return i1, f"{recv}.r", "usize"
+                if name == "ncols": return i1, f"{recv}.c", "usize"
+                if name == "shape": return i1, f"({recv}.r, {recv}.c)", "(usize,usize)"
+                if name == "inner": return i1, recv, rty
+            if name == "row" and len(e.args) == 1:
+                i2, a, ta = self.tr(e.args[0], env)
+                if ta not in INT64: raise Unsupported(f"`.row` with an argument of type {ta} (line {line})")
+                r = self.fresh()
+                return i1 + i2 + [("bind", r, f"LMat.row {recv} {a}")], r, "List<Z>"
+        if rty.startswith("List<") and name == "enumerate" and not e.args:
+            return i1, f"(Iter.enumerate {recv})", f"List<(usize,{rty[5:-1]})>"
         if rty.startswith("List<"):
             elt = rty[5:-1]
             if name == "count" and not e.args: return i1, f"(List.length {recv})", "usize"
@@ -3462,7 +3741,19 @@ def generate(src_text, src_label, target="bitseq"):
             disc.append((v, d)); nxt = d + 1
         lines += ["", f"/-- discriminants of `enum {name}` -/", f"def {name}.discr : {name} → Nat"] + [f"  | .{v} => {d}" for v, d in disc]
         parts.append("\n".join(lines))
-    for name in sorted(mod.structs):
+    def struct_order(names):
+        out, seen = [], set()
+
+        def visit(nm):
+            if nm in seen: return
+            seen.add(nm)
+            for _, t in mod.structs[nm]:
+                for other in sorted(mod.structs):
+                    if other != nm and re.search(r"(?<![\w])" + re.escape(other) + r"(?![\w])", t): visit(other)
+            out.append(nm)
+        for nm in names: visit(nm)
+        return out
+    for name in struct_order(sorted(mod.structs)):
         fs = mod.structs[name]
         eo = cfg.get("eops")
         lines = [f"/-- `struct {name}` -/", f"structure {name}S" + (" (α : Type) (m n : Nat)" if eo else "") + " where"]
@@ -3472,11 +3763,11 @@ def generate(src_text, src_label, target="bitseq"):
                 lt = tr.lean_ty(tr.field_ty(name, f, 0))
                 lines.append(f"  {tr.field_name(f)} : {unpar(lt) if eo else lt}   -- {t}")
         except Unsupported as ex:
-            if not eo: raise
+            if not (eo or cfg.get("lmat")): raise
             mod.notes.append(f"struct {name}: {ex}")
             tr.types.discard(name)
             continue
-        if not eo: lines.append("deriving DecidableEq, Repr, Inhabited")
+        if not eo and not cfg.get("no_derive"): lines.append("deriving DecidableEq, Repr, Inhabited")
         parts.append("\n".join(lines))
     for (ty, name) in sorted(mod.consts):
         cty, e = mod.consts[(ty, name)]
